@@ -30,6 +30,110 @@ def check(ctx, rep):
     operator_table(rep, prog, g)
     delimiters(rep, prog, g)
     fold_obligations(ctx, rep, prog, g)
+    comparator_language(ctx, rep, prog, g)
+
+
+def comparator_language(ctx, rep, prog, g):
+    """Token level: every comparator text of the npm range grammar (with the loose spellings the property lists) is
+    recognised by one of the five real alternatives of simple() with exactly its own extent — it is neither dropped as
+    garbage nor cut at a different place. Decided on the PEG-exact automata of the extracted grammar."""
+    from .. import peg
+    from ..peg import diff, inter, union
+    from .c05 import build
+    rule = "L-COMPARATORS"
+    rep.rule(rule, 10, "every npm comparator text (primitive, bare partial, tilde, caret, hyphen; loose spellings) followed by a "
+                       "delimiter is consumed exactly by a non-garbage alternative of simple()")
+    try:
+        L, P, classes, reps, _, _ = build(prog, g, root="range::range_set", extra_chars="vV.-+xX*<>=~^|")
+        simple = gram.strip(g["range::simple"])
+        real = [a for a in simple.args if not (gram.strip(a).kind == "ref" and gram.strip(a).extra == "range::garbage")]
+        from ..wmodels import P as Node
+        M5, F5 = P.den(Node("alt", real))
+    except (Inconclusive, KeyError) as e:
+        rep.inconc("%s: %s" % (rule, e))
+        return
+
+    def lit(ch):
+        return L.sym(classes[("lit", ch)])
+    digit, sp = L.sym(classes["digit"]), L.sym(classes["space"])
+    ident = L.sym(classes["ref_ident"])
+    dot, dash, plus_ = lit("."), lit("-"), lit("+")
+    num = L.plus(digit)
+    xr = union(union(lit("x"), lit("X")), union(lit("*"), num))
+    idt = L.plus(ident)
+    ids = L.concat(idt, L.star(L.concat(dot, idt)))
+    aln = L.sym(classes["ref_alnum"] - classes["digit"] - classes[("lit", "x")] - classes[("lit", "X")])
+    pre = union(L.concat(dash, ids), L.concat(L.concat(aln, L.star(ident)), L.star(L.concat(dot, idt))))
+    qualifier = L.concat(L.opt(pre), L.opt(L.concat(plus_, ids)))
+    partial = L.concat(xr, L.opt(L.concat(L.concat(dot, xr), L.opt(L.seq(dot, xr, qualifier)))))
+    vpartial = L.concat(L.opt(lit("v")), partial)
+    ws = L.star(sp)
+    op = union(union(L.concat(lit(">"), lit("=")), L.concat(lit("<"), lit("="))), union(union(lit(">"), lit("<")), lit("=")))
+    families = [
+        ("primitive", L.seq(op, ws, vpartial)),
+        ("bare partial", vpartial),
+        ("tilde", L.seq(lit("~"), L.opt(lit(">")), ws, vpartial)),
+        ("caret", L.seq(lit("^"), ws, vpartial)),
+        ("hyphen", L.seq(vpartial, L.plus(sp), dash, L.plus(sp), vpartial)),
+    ]
+    # continuations after a comparator that do not start a hyphen range: end, `||…`, or blanks followed by end or by
+    # something that is neither a blank nor `-`
+    other = L.sym(set(range(L.k)) - classes["space"] - classes[("lit", "-")])
+    bar = L.concat(lit("|"), lit("|"))
+    D = union(union(L.eps(), L.concat(bar, L.sigma_star())),
+              L.concat(L.plus(sp), union(L.eps(), L.concat(other, L.sigma_star()))))
+    for c in range(L.k):
+        rep.path((rule, "class", c))
+    for name, F in families:
+        full = L.concat(F, D)
+        # (a) a real alternative succeeds
+        w = inter(full, F5).witness()
+        if w is not None:
+            rep.fail(rule, "range::simple|%s|%s rejected" % (rule, name),
+                     "a %s comparator of the npm grammar is not recognised by any real alternative of simple() and is dropped "
+                     "as garbage (shortest: %r)" % (name, L.word_str(w, reps)), example=L.word_str(w, reps))
+        else:
+            rep.ok(rule)
+        # (b) and it consumes exactly the comparator
+        good = L.seq(F, L.mark(), D)
+        w = diff(inter(M5, L.with_marker_anywhere(full)), good).witness()
+        if w is not None:
+            rep.fail(rule, "range::simple|%s|%s cut elsewhere" % (rule, name),
+                     "a %s comparator is cut at a different place than its own end (shortest, # = end of the match: %r)" % (
+                         name, L.word_str(w, reps)), example=L.word_str(w, reps))
+        else:
+            rep.ok(rule)
+    # consistency of the automaton constructions on this grammar: the marked automaton of simple() against a direct
+    # evaluation of the extracted tree on enumerated words
+    import itertools
+    try:
+        Ms, Fs = P.den(g["range::simple"])
+        one = lambda nm: sorted(classes[nm])[0]
+        d, dt, spc = one("digit"), one(("lit", ".")), one("space")
+        stems = [[], [d], [d, dt, d], [d, dt, d, dt, d], [one(("lit", ">")), one(("lit", "="))], [one(("lit", "^"))], [d, spc, one(("lit", "-")), spc]]
+        nsuf = 3 if ctx.thorough else 2
+        total = bad = 0
+        for stem in stems:
+            for ln in range(nsuf + 1):
+                for suf in itertools.product(range(L.k), repeat=ln):
+                    w = stem + list(suf)
+                    j = peg.eval_peg(g, classes, g["range::simple"], w, 0)
+                    total += 1
+                    if j is None:
+                        agree = peg.dfa_accepts(Fs, w)
+                    else:
+                        agree = peg.dfa_accepts(Ms, w[:j] + [L.MARK] + w[j:])
+                    if not agree:
+                        bad += 1
+                        if bad <= 3:
+                            rep.fail("PEG-CROSSCHECK", "engine/peg.py|PEG-CROSSCHECK|%s" % L.word_str(w, reps),
+                                     "automaton and direct evaluation of simple() disagree on %r" % L.word_str(w, reps))
+        rep.rule("PEG-CROSSCHECK", 1000, "automaton vs direct PEG evaluation of simple() on enumerated class words")
+        rep.ok("PEG-CROSSCHECK", total - bad)
+    except Inconclusive as e:
+        rep.inconc("PEG-CROSSCHECK: %s" % e.reason, e.where)
+    rep.analysed_item("range grammar compiled to PEG-exact automata (%d character classes; M of the five real alternatives of "
+                      "simple(): %d states) and compared with 5 comparator families of the npm grammar" % (L.k, M5.n))
 
 
 def judge(rep, rule, fn_key, cellname, got, ref, where, ex, it):
